@@ -45,23 +45,14 @@ Lemma fixed_scan_emptyleaf :
   has_dup w_scan = false /\ scan_all (fst (run w_scan)) = inl (fst (s_run w_scan)) /\ length (fst (s_run w_scan)) = 26%nat.
 Proof. vm_compute. repeat split; reflexivity. Qed.
 
-(* 3: eight 2-byte keys, eight 900-byte keys, a ninth 900-byte key *)
+(* 3: eight 2-byte keys, eight 900-byte keys, a ninth 900-byte key (was K-C26-splitfit: the insert panicked) *)
 Definition w_insert : list op :=
   map (fun i => OInsert [97; N.of_nat i] (N.of_nat i)) (seq 0 8) ++
   map (fun i => OInsert (k900 [122; N.of_nat i]) (N.of_nat i)) (seq 0 9).
-Definition is_small_insert (o : op) : bool :=
-  match o with OInsert k _ => Nat.leb (length k) 900 | _ => false end.
-Lemma refuted_insert :
-  exists ops, has_dup ops = false /\
-    (forall o, In o ops -> exists k v, o = OInsert k v /\ (length k <= 900)%nat) /\
-    last (snd (run ops)) RUnit = RPanic.
-Proof.
-  exists w_insert.
-  split; [vm_compute; reflexivity|].
-  split.
-  - assert (H : forallb is_small_insert w_insert = true) by (vm_compute; reflexivity).
-    rewrite forallb_forall in H. intros o Ho. specialize (H o Ho).
-    destruct o; try discriminate H. exists k, v. split; [reflexivity|].
-    apply Nat.leb_le. exact H.
-  - vm_compute. reflexivity.
-Qed.
+(* regression (fixed in /repo 0fc5a58: the split point is chosen so that both halves fit a page): all 17
+   inserts succeed and the full scan is the multimap (the median split by count left 9 x 912 bytes) *)
+Lemma fixed_insert_splitfit :
+  has_dup w_insert = false /\ has_failed_op w_insert = false /\
+  snd (run w_insert) = snd (s_run w_insert) /\
+  scan_all (fst (run w_insert)) = inl (fst (s_run w_insert)) /\ length (fst (s_run w_insert)) = 17%nat.
+Proof. vm_compute. repeat split; reflexivity. Qed.
